@@ -18,11 +18,13 @@ Property text → theorems
 * "unsets only prerequisites of its children that it satisfied naturally"
     `unset_exactly_natural`, `forced_kept`, `other_tasks_kept`, `natural_unset`, `changed_iff`, `child_prereqs_unset`
 * "removes children left with no satisfied prerequisites"
-    `child_untouched`, `child_kept`, `child_unqueued`, `child_removed`, `child_leaves_iff`
+    `child_untouched`, `child_kept`, `child_unqueued`, `child_removed`, `child_leaves_iff`,
+    `child_history_erased_in_its_own_flows`
 * "Other tasks' outputs, flows and prerequisites are left unchanged"
     `others_untouched` (the whole removal loop: every pooled proxy outside the closure of the matched ids -- the ids,
     their graph children, and the parentless successors of both -- is the same object afterwards),
-    `kill_leaves_pool`, `removal_frame` (loop + kill), `other_history_kept` (DB rows of other tasks)
+    `kill_leaves_pool`, `removal_frame` (loop + kill), `other_history_kept` (DB rows of other tasks),
+    `other_flows_history_kept` (rows of the same task in flows the removal does not concern)
 * a matched id that is active in other flows only (finding `active-elsewhere-history-kept`):
     `elsewhere_partial` / `_counterexample` / `_live`
 
@@ -160,6 +162,21 @@ theorem child_removed (g : Graph) (ids : List Key) (k : Key) (F : List Nat) (st 
     (standDown g ids k F (st, any) ck).1.get? ck.1 ck.2 = none :=
   standDown_removed g ids k F st any ck c h hf hc hr hs
 
+/-- **a child that stands down is erased from its own flows only**: the DB operation queued for it names the flows
+its pool instance was removed in (`match_flows` of the child), not the flows named by the command -- with
+`other_flows_history_kept`, what the child did in other flows stays in the database -/
+theorem child_history_erased_in_its_own_flows (g : Graph) (ids : List Key) (k : Key) (F : List Nat) (st : State)
+    (any : Bool) (ck : Key) (c : Proxy) (h : st.get? ck.1 ck.2 = some c) (hf : (c.matchFlows F).isEmpty = false)
+    (hc : childChanged c k = true) (hr : stillReady c k F = false)
+    (hs : (ids.contains ck || ((unsetChild c k).reset (queued := some false)).anySatisfied) = false) :
+    standDown g ids k F (st, any) ck =
+      ((removeTaskFromFlows
+          (remove g ((st.put (unsetChild c k)).put ((unsetChild c k).reset (queued := some false)))
+            ((unsetChild c k).reset (queued := some false)))
+          ((unsetChild c k).reset (queued := some false)).name ((unsetChild c k).reset (queued := some false)).pt
+          (c.matchFlows F)).1, true) :=
+  standDown_removed_eq g ids k F st any ck c h hf hc hr hs
+
 /-- **exactly those children leave the pool**: a pooled downstream proxy is gone after its stand-down step iff it
 is concerned, lost a naturally satisfied prerequisite, is no longer ready, is not matched itself and has no
 satisfied prerequisite left -/
@@ -231,6 +248,17 @@ theorem other_history_kept (s : State) (name : String) (p : Int) (F : List Nat) 
     (∀ r : StRow, ¬ r.isOf name p → (r ∈ (dbFlush (removeTaskFromFlows s name p F).1).stRows ↔ r ∈ s.stRows)) ∧
     (∀ r : OutRow, ¬ r.isOf name p → (r ∈ (dbFlush (removeTaskFromFlows s name p F).1).outRows ↔ r ∈ s.outRows)) :=
   ⟨(erase_states s name p F hq).2, (erase_outputs s name p F hq).2⟩
+
+/-- **history in other flows is kept**: a flow set of the task's rows (either table) that contains none of the removed
+flows is still the flow set of one of its rows after `remove_task_from_flows` + commit -/
+theorem other_flows_history_kept (s : State) (name : String) (p : Int) (F : List Nat) (hq : Quiet s)
+    (hF : F.isEmpty = false) :
+    (∀ r ∈ s.stRows, r.isOf name p → hitB F r.flows = false →
+      ∃ r' ∈ (dbFlush (removeTaskFromFlows s name p F).1).stRows, r'.isOf name p ∧ r'.flows = r.flows) ∧
+    (∀ r ∈ s.outRows, r.isOf name p → hitB F r.flows = false →
+      ∃ r' ∈ (dbFlush (removeTaskFromFlows s name p F).1).outRows, r'.isOf name p ∧ r'.flows = r.flows) :=
+  ⟨fun r hr hk hc => erase_states_keeps s name p F hq hF r hr hk hc,
+   fun r hr hk hc => erase_outputs_keeps s name p F hq hF r hr hk hc⟩
 
 /-- with such rows `_get_task_history` finds no earlier status of the task in those flows -/
 theorem history_forgotten (s : State) (name : String) (p : Int) (F F' : List Nat)
@@ -512,6 +540,15 @@ example :
       [("b", []), ("b", [2]), ("a", [1])] ∧
     (taskHistory s "b" 1 [1]).2 = (some .succeeded, false) ∧
     (taskHistory (dbFlush (removeTaskFromFlows s "b" 1 [1]).1) "b" 1 [1]).2 = (none, false) := by
+  refine ⟨⟨rfl, rfl, rfl, rfl⟩, ?_⟩
+  decide +kernel
+
+/-- `other_flows_history_kept`: `1/b` succeeded in flow 1 and waits in flow 2; erased from flow 2 its flow-1 row stays -/
+example :
+    let s : State := { stRows := [⟨"b", 1, [1], 1, false, .succeeded, false⟩, ⟨"b", 1, [2], 1, false, .waiting, false⟩] }
+    Quiet s ∧ hitB [2] [1] = false ∧
+    (dbFlush (removeTaskFromFlows s "b" 1 [2]).1).stRows.map (fun r => (r.flows, r.status)) =
+      [([1], .succeeded), ([], .waiting)] := by
   refine ⟨⟨rfl, rfl, rfl, rfl⟩, ?_⟩
   decide +kernel
 
